@@ -5,14 +5,27 @@ import e2, mirdump
 from e2 import *
 from mirsym import models as MD
 from props import dial
+from props.cmodels import *
 
 PROP = 'C10'
 
 
-def _admission_paths(ex_holder):
-    """symbolically execute the async block of handle_incoming_task from its start state"""
-    sym = {}
+KNOWN_TY = 'HashMap<PeerId, PeerInfo>'
+CM = 'crates/anemo/src/network/connection_manager.rs'
 
+
+def admission_cells():
+    """the two lock-guarded tables the admission decision reads, found by the guarded *type* (not by accessor names)"""
+    def mk_active(p):
+        f = struct_fields(CM, 'ActivePeersInner').by_type(r'^HashMap<PeerId,Connection>$')
+        return Sym('active_inner', 'ActivePeersInner').with_ov(('f', f), Sym('conns', 'HashMap<PeerId, connection::Connection>'))
+    return [(r'^(\w+::)*HashMap<(\w+::)*PeerId,(\w+::)*PeerInfo>$', 'known_map', lambda p: Sym('known', KNOWN_TY)),
+            (r'^(\w+::)*ActivePeersInner$', 'active_inner', mk_active)]
+
+
+def _admission_paths(ex_holder):
+    """symbolically execute handle_incoming_task (the whole async fn body, including whatever helpers / inner futures it
+    awaits) from its start state"""
     def m_connecting_poll(ex, p, call, k):
         # schedule: `connecting.await` is Ready(Ok(conn)) | Ready(Err(e)); Pending is explored too
         conn = Sym('conn', 'connection::Connection')
@@ -25,48 +38,43 @@ def _admission_paths(ex_holder):
         r.events.append(Event('connecting', 'Pending', ()))
         k(r, Agg('Poll', 'Pending', ()))
 
-    def m_known_get(ex, p, call, k):
-        key = ex.deref(p, call.args[1])
-        known = Sym('known', 'std::option::Option<types::PeerInfo>')
-        sym['known'] = known
-        p.events.append(Event('known-get', 'KnownPeers::get', (key,)))
-        k(p, known)
-
     def m_limit(ex, p, call, k):
-        lim = Sym('limit', 'std::option::Option<usize>')
-        sym['limit'] = lim
         p.events.append(Event('limit-read', 'max_concurrent_connections', ()))
-        k(p, lim)
-
-    def m_len(ex, p, call, k):
-        p.events.append(Event('len-read', 'ActivePeers::len', ()))
-        k(p, z3.BitVec('active_len', 64))
+        k(p, Sym('limit', 'std::option::Option<usize>'))
 
     def m_handshake(ex, p, call, k):
         p.events.append(Event('ADMIT', 'handshake', (call.args[0],)))
         k(p, Sym('handshake_future', 'fut'))
 
     models = [(r'^<endpoint::Connecting as Future>::poll$', m_connecting_poll),
-              (r'KnownPeers::get$', m_known_get),
               (r'Config::max_concurrent_connections$', m_limit),
-              (r'ActivePeers::len$', m_len),
-              (r'(^|::)handshake$', m_handshake)]
-    ex = e2.executor('anemo', models, max_depth=3)
+              (r'(^|::)handshake$', m_handshake)] + CONNECTION_MODELS + lock_models(admission_cells()) + timeout_models()
+    ex = e2.executor('anemo', models, max_depth=7)
     ex.explore_pending = True
     ex_holder.append(ex)
     parent = find_method(ex.prog, 'ConnectionManager', 'handle_incoming_task')
-    fn = find_closure(ex.prog, parent, [0, 0])
+    fn = find_closure(ex.prog, parent, [0])
     p, args = coroutine_start(ex, fn)
     res = ex.run(fn, args, p)
-    return ex, fn, res, sym
+    return ex, fn, res
+
+
+def _apps(e, fname, out):
+    """all applications of the uninterpreted function `fname` inside a z3 term"""
+    if z3.is_app(e):
+        if e.decl().name() == fname and e.num_args() == 1:
+            out.append(e.arg(0))
+        for c in e.children():
+            _apps(c, fname, out)
+    return out
 
 
 def ob_admission(report):
-    fnname = 'ConnectionManager::handle_incoming_task::{async block}'
+    fnname = 'ConnectionManager::handle_incoming_task'
 
     def body(ob):
         exs = []
-        ex, fn, res, sym = _admission_paths(exs)
+        ex, fn, res = _admission_paths(exs)
         en = ex.enums
         HIGH, ALLOWED, NEVER = (en.index('PeerAffinity', v) for v in ('High', 'Allowed', 'Never'))
         if None in (HIGH, ALLOWED, NEVER):
@@ -74,54 +82,50 @@ def ob_admission(report):
         conn_ok = [r for r in res if any(e.kind == 'connecting' and e.name == 'Ready(Ok)' for e in r.events)]
         conn_err = [r for r in res if any(e.kind == 'connecting' and e.name == 'Ready(Err)' for e in r.events)]
         admit = [r for r in conn_ok if any(e.kind == 'ADMIT' for e in r.events)]
-        reject = [r for r in conn_ok if not any(e.kind == 'ADMIT' for e in r.events) and r.tag == 'return']
-        other = [r for r in conn_ok if r not in admit and r not in reject]
+        reject = [r for r in conn_ok if not any(e.kind == 'ADMIT' for e in r.events) and r.tag == 'return' and not any(e.kind == 'elapsed' for e in r.events)]
+        late = [r for r in conn_ok if not any(e.kind == 'ADMIT' for e in r.events) and r.tag == 'return' and any(e.kind == 'elapsed' for e in r.events)]
+        other = [r for r in conn_ok if r.tag != 'return']
         if not admit or not reject:
             return ob.done(exs, 'inconclusive', f'vacuity: admit paths={len(admit)} reject paths={len(reject)}', paths=len(res))
         if other:
             return ob.done(exs, 'violated', f'path ends with {other[0].tag} (panic/diverge) inside the admission block',
                            sample=path_summary(other[0]), key='admission-panics', paths=len(res))
-        known = Sym('known', 'std::option::Option<types::PeerInfo>')
-        kd = ex.discriminant(known, 'isize')
-        info = ex.project(VarView(known, 'Some'), ('field', 0, 'types::PeerInfo'))
-        # PeerInfo { peer_id, affinity, address }: locate the affinity field through the type table of the MIR
-        aff = None
-        for r in conn_ok:
-            for c in r.pc:
-                for nm in re.findall(r'known@Some\.0\.(\d+)\.discr', str(c)):
-                    aff = int(nm)
-        if aff is None:
-            return ob.done(exs, 'inconclusive', 'affinity field never inspected on any path', paths=len(res))
-        affd = z3.BitVec(f'known@Some.0.{aff}.discr', 64)
+        if late:
+            return ob.done(exs, 'violated', 'the connect timeout elapses after `connecting` completed but before the admission decision (the decision awaits something)',
+                           sample=path_summary(late[0]), key='admission-awaits', paths=len(res))
+        key = z3.BitVec('pid(conn)', 256)
+        has = MD.map_has_initial(Sym('known', KNOWN_TY), key)
+        aff = struct_fields('crates/anemo/src/types/mod.rs', 'PeerInfo').index('affinity')
+        affd = z3.BitVec(f'known[{key}].{aff}.discr', 64)
         lim = Sym('limit', 'std::option::Option<usize>')
         ld = ex.discriminant(lim, 'isize')
         limv = z3.BitVec('limit@Some.0', 64)
-        ln = z3.BitVec('active_len', 64)
-        dom = [z3.ULT(kd, 2), z3.Or(affd == HIGH, affd == ALLOWED, affd == NEVER), z3.ULT(ld, 2)]
-        spec = z3.Or(z3.And(kd == 1, z3.Or(affd == HIGH, affd == ALLOWED)),
-                     z3.And(kd == 0, z3.Or(ld == 0, z3.ULT(ln, limv))))
+        ln = z3.BitVec('len<conns>', 64)
+        dom = [z3.Or(affd == HIGH, affd == ALLOWED, affd == NEVER), z3.ULT(ld, 2)]
+        spec = z3.Or(z3.And(has, z3.Or(affd == HIGH, affd == ALLOWED)),
+                     z3.And(z3.Not(has), z3.Or(ld == 0, z3.ULT(ln, limv))))
+        # every completed-connecting path is classified admit / reject (late / other are refused above) and the executor explores
+        # every feasible branch, so  admit => spec  and  reject => not spec  together give  admit <=> spec
         A = z3.Or([r.path.cond() for r in admit])
         Rj = z3.Or([r.path.cond() for r in reject])
-        q1, m1, t1 = solve(dom + [A != spec])
-        q2, m2, t2 = solve(dom + [Rj != z3.Not(spec)])
-        # the admission decision is taken for the connection's own authenticated id
+        q1, m1, t1 = solve(dom + [A, z3.Not(spec)])
+        q2, m2, t2 = solve(dom + [Rj, spec])
+        # the admission decision is taken for the connection's own authenticated id, on the admitted connection
         idbad = None
+        looked = 0
         for r in conn_ok:
-            for e in r.events:
-                if e.kind == 'known-get':
-                    key = e.args[0]
-                    want = z3.BitVec('conn.1', 256)
-                    if not (isinstance(key, z3.ExprRef) and z3.is_bv(key) and key.size() == 256):
-                        idbad = f'KnownPeers::get key is not a PeerId value: {vrepr(key)}'
-                    else:
-                        qq, mm, _ = solve(r.path.pc + [key != want])
-                        if qq != 'unsat':
-                            idbad = f'KnownPeers::get is not keyed by connection.peer_id(): {vrepr(key)}'
+            for c in r.pc:
+                for arg in _apps(c, 'has<known>', []):
+                    looked += 1
+                    qq, mm, _ = solve(r.path.pc + [arg != key])
+                    if qq != 'unsat':
+                        idbad = f'the known-peers table is consulted under {arg}, not under connection.peer_id()'
             for e in r.events:
                 if e.kind == 'ADMIT' and vname(e.args[0]) != 'conn':
                     idbad = f'handshake is applied to {vrepr(e.args[0])}, not to the admitted connection'
-        errbad = [r for r in conn_err if any(e.kind == 'ADMIT' for e in r.events) or
-                  not (isinstance(r.ret, Agg) and r.ret.variant == 'Ready' and isinstance(r.ret.fields[0], Agg) and r.ret.fields[0].variant == 'Err')]
+        if not looked:
+            return ob.done(exs, 'inconclusive', 'the known-peers table (RwLock<HashMap<PeerId, PeerInfo>>) is never consulted on any path', paths=len(res))
+        errbad = [r for r in conn_err if any(e.kind == 'ADMIT' for e in r.events) or r.tag != 'return']
         sample = {'paths': len(res), 'admit_paths': len(admit), 'reject_paths': len(reject),
                   'example_admit': path_summary(admit[0]), 'example_reject': path_summary(reject[0]),
                   'spec': 'admit <=> known in {High,Allowed} or (known = None and (limit = None or len < limit))'}
@@ -130,7 +134,7 @@ def ob_admission(report):
             return ob.done(exs, 'inconclusive', 'solver unknown', sample, paths=len(res), extra_queries=nq, extra_solver=t1 + t2)
         if q1 == 'sat' or q2 == 'sat':
             m = m1 or m2
-            cex = {'known': 'Some' if m.eval(kd, True).as_long() == 1 else 'None',
+            cex = {'known': 'Some' if z3.is_true(m.eval(has, True)) else 'None',
                    'affinity': {HIGH: 'High', ALLOWED: 'Allowed', NEVER: 'Never'}.get(m.eval(affd, True).as_long(), '?'),
                    'limit': ('Some(%d)' % m.eval(limv, True).as_long()) if m.eval(ld, True).as_long() == 1 else 'None',
                    'active_len': m.eval(ln, True).as_long(),
@@ -146,43 +150,14 @@ def ob_admission(report):
             o.replay = write_replay(PROP, 'admission-identity', {'detail': idbad})
             return o
         if errbad:
-            o = ob.done(exs, 'violated', 'a failed `connecting` does not end in Err without handshake', path_summary(errbad[0]),
+            o = ob.done(exs, 'violated', 'a failed `connecting` is handed to the handshake / does not return', path_summary(errbad[0]),
                         key='admission-connect-err', paths=len(res))
             o.replay = write_replay(PROP, 'admission-connect-err', path_summary(errbad[0]))
             return o
         ob.done(exs, 'held', '', sample, paths=len(res), extra_queries=nq, extra_solver=t1 + t2)
     return guarded(report, 'admission_equiv_spec', 'admit <=> spec and reject <=> not spec for all affinity x limit x len (2^64 each); '
-                   'lookup key = connection.peer_id(); failed connecting => Err',
-                   [fnname], {'loops': 'none (loop-free)', 'inline_depth': 3}, body)
-
-
-def ob_len_is_all_connections(report):
-    def body(ob):
-        ex = e2.executor('anemo', max_depth=4)
-        fn = find_method(ex.prog, 'ActivePeers', 'len')
-        res = [r for r in ex.run(fn, []) if r.tag == 'return']
-        panics = [r for r in ex.results if r.tag != 'return']
-        bad = None
-        for r in res:
-            v = r.ret
-            if not (isinstance(v, z3.ExprRef) and z3.is_const(v) and str(v).startswith('len<')):
-                bad = f'ActivePeers::len returns {vrepr(v)}, not the size of the connection map'
-            elif not re.search(r'\.0>$', str(v)):
-                bad = f'ActivePeers::len measures {v}, not field 0 (connections) of ActivePeersInner'
-        # field 0 of ActivePeersInner must be the one map of connections
-        src = open(os.path.join(REPO, 'crates/anemo/src/network/connection_manager.rs')).read()
-        m = re.search(r'struct ActivePeersInner\s*\{\s*(\w+)\s*:', src)
-        if not m or m.group(1) != 'connections':
-            bad = bad or 'first field of ActivePeersInner is not `connections`'
-        if not res:
-            return ob.done([ex], 'inconclusive', 'no returning path', paths=len(ex.results))
-        if bad:
-            o = ob.done([ex], 'violated', bad, {'ret': vrepr(res[0].ret)}, key='len-not-all-connections', paths=len(ex.results))
-            o.replay = write_replay(PROP, 'len', {'detail': bad})
-            return o
-        ob.done([ex], 'held', '', {'ret': vrepr(res[0].ret), 'paths': len(ex.results)}, paths=len(ex.results))
-    return guarded(report, 'len_counts_every_connection', 'ActivePeers::len = size of the single connections map (inbound and outbound alike)',
-                   ['ActivePeers::len', 'ActivePeersInner::len'], {'inline_depth': 4}, body)
+                   'lookup key = connection.peer_id(); failed connecting => no handshake',
+                   [fnname], {'loops': 'none (loop-free)', 'inline_depth': 7}, body)
 
 
 def ob_dials_not_limited(report):
@@ -285,9 +260,11 @@ def check(report, tier, only=None):
                        'contract models: Future::poll of `Connecting` = symbolic Poll<Result<Connection>>; HashMap::{get,len}; RwLock::read returns the guarded value; tracing disabled']
     report.outside += ['truly simultaneous arrivals (excluded by the property)', 'that the dialer observes the failure (QUIC close)',
                        'TLS identity of the connection (C01)']
-    report.assumptions += ['KnownPeers::get, Config::max_concurrent_connections, ActivePeers::len are the interface points of the admission block; '
-                           'each is checked separately (known_peers_get_is_map_lookup, len_counts_every_connection) or is a plain field read']
-    obs = [ob_admission, ob_len_is_all_connections, ob_dials_not_limited, ob_known_get, ob_known_insert, lambda rep: dial.ob_dial_task(rep, PROP)]
+    report.assumptions += ['the admission code is executed down to std: RwLock::<T>::read/write return a guard on ONE canonical cell per guarded type '
+                           '(HashMap<PeerId, PeerInfo> = the known-peers table, ActivePeersInner = the connection map; locks not poisoned); '
+                           'HashMap::{get,len,contains_key} fork-based finite-map contract; tokio::time::timeout contract (inner future polled, Elapsed only while it is pending); '
+                           'Config::max_concurrent_connections and Connection::peer_id are interface points (public accessors)']
+    obs = [ob_admission, ob_dials_not_limited, ob_known_get, ob_known_insert, lambda rep: dial.ob_dial_task(rep, PROP)]
     for f in obs:
         if only and not any(s in getattr(f, '__name__', 'dial') for s in only):
             continue
